@@ -142,14 +142,34 @@ def reference(pool: dict, job: dict) -> dict:
     return {"digest": out.get("digest"), "escaped": out.get("escaped"), "events": r["events"]}
 
 
-def draw_strategy(rng: random.Random, est_events: int, t0_events: int) -> dict:
-    k = rng.choice(["random", "random", "random", "repo", "repo", "site", "site", "pct", "skew", "rendezvous", "rendezvous", "rendezvous"])
+def draw_kind(rng: random.Random, counter: int) -> dict:
+    """First decision of a run: the strategy kind and, for rendezvous runs, the group of shared-state sites the run
+    concentrates on (groups are taken in turn so that each gets its share) - the plan is then biased to the kind of
+    call that can reach that group."""
+    k = rng.choice(["random", "random", "random", "repo", "repo", "site", "site", "pct", "skew", "rendezvous", "rendezvous", "rendezvous", "rendezvous"])
+    out = {"kind": k, "focus": None, "mix": None}
+    if k == "rendezvous":
+        groups = sorted(S.shared_lines()) + sorted({c.co_filename for c in S.code_groups()[2]}) + [None]
+        focus = groups[(counter + rng.randrange(3)) % len(groups)]
+        out["focus"] = focus
+        if focus is not None:
+            f = focus.replace("\\", "/")
+            if "/compiler/" in f or "reader" in f or f.endswith("ssb_compiler.py") or f.endswith("macro.py") or "listener" in f or "source_map" in f:
+                out["mix"] = ["C"] if rng.random() < 0.8 else ["C", "SC", "D"]
+            elif "/decompiler/" in f or f.endswith("ssb_decompiler.py"):
+                out["mix"] = ["D", "D", "S"]
+    return out
+
+
+def draw_strategy(rng: random.Random, est_events: int, t0_events: int, pre: dict | None = None) -> dict:
+    k = pre["kind"] if pre else rng.choice(["random", "random", "random", "repo", "repo", "site", "site", "pct", "skew", "rendezvous"])
     gcp = sorted(rng.randrange(1, max(2, est_events)) for _ in range(rng.choice([0, 0, 1, 3])))
     pal = rng.choice([0.0, 0.0, 0.1, 0.5, 1.0])
     if k == "random":
         return {"kind": "random", "mean_gap": rng.choice([10, 30, 100, 300, 3000, 30000]), "gc_points": gcp, "max_switches": 5000, "p_after_acquire": pal}
     if k == "rendezvous":
-        return {"kind": "rendezvous", "q": rng.choice([0.05, 0.2, 0.5]), "burst_len": rng.choice([8, 16, 32]), "patience": rng.choice([50000, 300000]),
+        focus = pre["focus"] if pre else None
+        return {"kind": "rendezvous", "focus": focus, "q": rng.choice([0.05, 0.2, 0.5]), "burst_len": rng.choice([8, 16, 32]), "patience": rng.choice([50000, 300000, 2000000]), "burst_point_p": rng.choice([0.0, 0.0005, 0.002, 0.01]), "burst_events": rng.choice([20000, 200000]),
                 "gc_points": gcp, "max_switches": 2500, "p_after_acquire": pal}
     if k == "repo":
         return {"kind": "repo", "p_line": rng.choice([0.01, 0.05, 0.2, 0.5]), "p_entry": rng.choice([0.0, 0.0005, 0.005]), "gc_points": gcp, "max_switches": 8000, "p_after_acquire": pal}
@@ -161,15 +181,19 @@ def draw_strategy(rng: random.Random, est_events: int, t0_events: int) -> dict:
     return {"kind": "skew", "release_at": max(1, int(rng.random() * t0_events)), "then_gap": rng.choice([30, 300, 3000]), "gc_points": gcp, "max_switches": 5000}
 
 
-def gen_plan(pool: dict, rng: random.Random) -> list[list[dict]]:
+def gen_plan(pool: dict, rng: random.Random, mix_hint=None) -> list[list[dict]]:
     nthreads = rng.choice([2, 2, 3, 4])
     nt, nd, ns = len(pool["texts"]), len(pool["docs"]), len(pool["ssbs"])
     plan = []
     # swarm: some runs are all-compile, some all-decompile (state shared by one kind of call needs two of a kind at once)
     mix = rng.choice([["C"], ["D", "D", "S"], ["C", "C", "D", "D", "D", "S", "SC"], ["C", "C", "D", "D", "D", "S", "SC"]])
+    if mix_hint:
+        mix = mix_hint
     for _ in range(nthreads):
         jobs = []
-        for _ in range(rng.choice([1, 1, 2, 3])):
+        # a run that concentrates on one group of sites gives every thread several calls of the kind that reaches it
+        # (state left by a FINISHED call is often what the next two calls race for)
+        for _ in range(rng.choice([2, 3, 3]) if mix_hint else rng.choice([1, 1, 2, 3])):
             k = rng.choice(mix)
             if k == "C":
                 jobs.append({"k": "C", "i": rng.randrange(nt)})
@@ -217,7 +241,8 @@ def run_item(item: dict) -> dict:
     for s in range(item["schedules"]):
         rs = seeds.H(pool_seed, "schedule", s)
         prng = seeds.stream(rs, "plan")
-        plan = gen_plan(pool, prng)
+        pre = draw_kind(seeds.stream(rs, "kind"), item["idx"] * item["schedules"] + s)
+        plan = gen_plan(pool, prng, pre["mix"])
         for jobs in plan:
             for j in jobs:
                 if job_key(j) not in refs:
@@ -225,7 +250,7 @@ def run_item(item: dict) -> dict:
                     res["processes"] += 1
         seq = sum(refs[job_key(j)]["events"] for jobs in plan for j in jobs)
         t0 = sum(refs[job_key(j)]["events"] for j in plan[0])
-        strategy = draw_strategy(seeds.stream(rs, "strategy"), seq, t0)
+        strategy = draw_strategy(seeds.stream(rs, "strategy"), seq, t0, pre)
         strategy["step_cap"] = seq * 50
         sim = forkrun(simulate, pool, plan, strategy, rs, timeout=300)
         res["processes"] += 1
